@@ -7,7 +7,9 @@ from nqlib import run_standard
 RULE = ("every users/assign of up to %s lines drawn from a 17-line template set (simple, wildcard, duplicate, overlapping, mixed-case, uid 0, "
         "uid wrapping to 0, malformed incl. one colon short) compiled by the real qmail-newu.c main and compared byte-for-byte with the model cdbMake; for each table 23 probe "
         "local parts (hits, near-misses, case variants, extensions, null) delivered through the real spawn.c docmd() + qmail-lspawn.c spawn()/nughde_get() "
-        "child with setgroups/setgid/setuid/getuid/execv/chdir/fork recorded and 9 single-call faults on a rotating basis; %s seeded random tables "
+        "child with setgroups/setgid/setuid/getuid/execv/chdir/fork recorded and 9 single-call faults on a rotating basis; the same over an 11-line "
+        "8-bit template set (UTF-8 and Latin-1 names, 0x7f, 0x01, 0x80, 0xff, ASCII letter + 0x80, upper case next to 8-bit bytes; exact and wildcard) "
+        "with 26 8-bit probe local parts through cdb_seek and the delivery child; %s seeded random tables (every third over the whole byte range) "
         "(1-40, 200-700 and 990-2200 entries) with raw cdb_seek lookups, probes derived from the table, and corrupted/truncated copies of the cdb; "
         "random passwd databases (uid 0, missing/foreign/unreadable homes, ETXTBSY, 29-34 character names, missing/root alias) through the real "
         "qmail-getpw.c main directly and through the forked child of nughde_get; report() on every exit code. Compared with the Lean model "
@@ -19,7 +21,7 @@ run_standard("C11", "Nq.Props.C11", "drv_c11", "harness/c11_users.c", "qmail-lsp
              "2 2000", "3 24000", {"quick": RULE % (2, 2000), "thorough": RULE % (3, 24000)},
              "newuFile/cdbMake, cdbSeek, nughdeCdb, getpwMain, docmd/spawnChild, reportByte (Nq/Users.lean) vs qmail-newu.c, cdb_seek.c, "
              "qmail-lspawn.c, qmail-getpw.c, spawn.c docmd()",
-             alphabet=b"ab-AB:+=.\n%0",
+             alphabet=b"ab-AB:+=.\n%0\xc3\xbc\xe9\xc9\xff\x7f\x01",
              stdin_prefixes=("0",),
              extra_cc="cdbmss.o getln.a cdbmake.a auto_break.o stralloc.a substdio.a open.a error.a str.a fs.a case.a",
              assumptions=["setgroups/setgid/setuid/getuid have their POSIX meaning (interposed and recorded; after a successful setuid(u), getuid() = u)",
